@@ -19,6 +19,7 @@ func init() {
 			Path string `json:"path"`
 			Kind string `json:"kind"` // plain | gz | zst
 			Data string `json:"data"` // hex
+			Members int `json:"members"` // gz: the data is stored as this many concatenated gzip members (gzip -c x >> f.gz)
 		}
 		if err := json.Unmarshal(raw, &c); err != nil {
 			return nil, err
@@ -27,9 +28,15 @@ func init() {
 		switch c.Kind {
 		case "gz":
 			var b bytes.Buffer
-			w := gzip.NewWriter(&b)
-			w.Write(data)
-			w.Close()
+			n := c.Members
+			if n < 1 {
+				n = 1
+			}
+			for k := 0; k < n; k++ {
+				w := gzip.NewWriter(&b)
+				w.Write(data[len(data)*k/n : len(data)*(k+1)/n])
+				w.Close()
+			}
 			data = b.Bytes()
 		case "zst":
 			out, err := zstd.Compress(nil, data)
